@@ -41,7 +41,7 @@ MUTANTS = [
     ("M50", "port_name.py", "    \"nntp\": 119,\n    \"bgp\": 179,\n    \"irc\": 194,\n    \"pim-auto-rp\": 496,\n    \"exec\": 512,\n    \"login\": 513,\n    \"cmd\": 514,", "    \"nntp\": 119,\n    \"bgp\": 178,\n    \"irc\": 194,\n    \"pim-auto-rp\": 496,\n    \"exec\": 512,\n    \"login\": 513,\n    \"cmd\": 514,", "C09"),
     ("M51", "port_name.py", "    items.update(set(TCP_NAME_PORT__NXOS))\n", "", "C09"),
     ("M52", "protocol.py", "    \"eigrp\": 88,\n    \"ospf\": 89,\n    \"nos\": 94,\n    \"pim\": 103,\n    \"pcp\": 108,\n}\nPROTOCOLS_NXOS", "    \"eigrp\": 88,\n    \"ospf\": 98,\n    \"nos\": 94,\n    \"pim\": 103,\n    \"pcp\": 108,\n}\nPROTOCOLS_NXOS", "C09"),
-    ("M53", "port.py", "        port_name = PortName(protocol=self._protocol, platform=self._platform, version=self.version)\n        data = port_name.ports()", "        port_name = PortName(protocol=self._protocol, platform=\"ios\", version=self.version)\n        data = port_name.ports()", "C09 C02 C06"),
+    ("M53", "port.py", "        port_name = PortName(protocol=self._protocol, platform=self._platform, version=self.version)\n        data = port_name.ports()", "        port_name = PortName(protocol=self._protocol, platform=\"ios\", version=self.version)\n        data = port_name.ports()", "C09"),
     ("M60", "ace.py", "        if self._action != other.action:\n            return False\n        if not self._shadow_of__protocol(other):", "        if not self._shadow_of__protocol(other):", "C03 C11 C04"),
     ("M61", "ace.py", "        if other.protocol.name == \"ip\":\n            return True", "        if other.protocol.name == \"ip\" or self._protocol.name == \"ip\":\n            return True", "C03 C11"),
     ("M62", "ace.py", "        tops = other.dstaddr.ipnets()\n        bottoms = self._dstaddr.ipnets()", "        tops = other.dstaddr.ipnets()\n        bottoms = self._dstaddr.ipnets()[:1]", "C03 C11"),
@@ -56,13 +56,12 @@ MUTANTS = [
     ("M82", "ace.py", "        if len(aces) == 1:\n            return [self]\n", "", "C19 C16"),
     ("M91", "address_base.py", "        if [o for o in ipnets if ipnet.subnet_of(o)]:\n            continue", "        if [o for o in ipnets if ipnet.overlaps(o)]:\n            continue", "C14"),
     ("M92", "address_base.py", "    return sorted(addresses_)", "    return addresses_", "C14"),
-    ("M100", "remark.py", "        self._sequence = h.init_int(ace_d[\"sequence\"])\n        self._text", "        self._sequence = 0 if ace_d[\"sequence\"] == \"\" else h.init_int(ace_d[\"sequence\"]) + 0 * 1\n        self._text", "C06"),
-    ("M101", "address_ag.py", "        if self._sequence:\n            return f\"{self._sequence} {line_}\"", "        if self._sequence and self._platform != \"ios\":\n            return f\"{self._sequence} {line_}\"", "C06 C02"),
+    ("M101", "address_ag.py", "        if self._sequence:\n            return f\"{self._sequence} {line_}\"", "        if self._sequence and self._platform != \"ios\":\n            return f\"{self._sequence} {line_}\"", "C02"),
     ("M102", "acl.py", "        ace = \"\\n\".join([f\"{self._indent}{o}\" for o in items])", "        ace = \"\\n\".join([f\"{self._indent or DEF_INDENT}{o}\" for o in items])", "C06"),
     ("M30", "port.py", "            return [ports[0] - 1] if ports else [65535]", "            return [ports[0]] if ports else [65535]", "C08"),
     ("M31", "port.py", "            return [ports[-1] + 1] if ports else [1]", "            return [ports[1] + 1] if ports else [1]", "C08"),
     ("M32", "port.py", "        ports = sorted(ports)\n        if operator == \"eq\":", "        if operator == \"eq\":", "C08"),
-    ("M33", "port.py", "        return sorted(ports)\n", "        return ports\n", "C08 C06"),
+    ("M33", "port.py", "        return sorted(ports)\n", "        return ports\n", "C08"),
     ("M34", "port.py", "            items = [i for i in all_ports if i > items[0]]", "            items = [i for i in all_ports if i >= items[0]]", "C08 C01"),
     ("M35", "helpers.py", "            if item_next - item <= 1:  # range", "            if item_next - item <= 2:  # range", "C08"),
     ("M36", "helpers.py", "    ports_ = [i for i in ports_calc if 1 <= i <= 65535]", "    ports_ = [i for i in ports_calc if 1 <= i < 65535]", "C08"),
